@@ -243,6 +243,15 @@ fn gen_history(r: &mut Rng, len: usize) -> Vec<HOp> {
     if r.chance(1, 3) {
         h.push(HOp::Sql("CREATE ROLE PUBLIC".into()));
     }
+    // administrator phase (security still off, nothing is checked): seed some privileges, many WITH GRANT OPTION,
+    // so that the authority check of GRANT has something to accept later
+    for _ in 0..r.below(5) {
+        let privs = gen_priv_list(r);
+        let t = r.pick(TABLE_POOL).to_string();
+        let ge = gen_grantees(r);
+        let wgo = if r.chance(2, 3) { " WITH GRANT OPTION" } else { "" };
+        h.push(HOp::Sql(format!("GRANT {} ON {} TO {}{}", privs.iter().map(priv_sql).collect::<Vec<_>>().join(", "), t, ge.join(", "), wgo)));
+    }
     if r.chance(3, 4) {
         h.push(HOp::SetSecurity(true));
     }
@@ -272,7 +281,13 @@ fn gen_history(r: &mut Rng, len: usize) -> Vec<HOp> {
                 h.push(HOp::Sql(format!("REVOKE {}{} ON {}{} FROM {}{}{}", gof, privs.iter().map(priv_sql).collect::<Vec<_>>().join(", "), kw, obj, ge.join(", "), by, casc)));
             }
             58..=69 => {
-                let role = if r.chance(1, 8) { None } else { Some(r.pick(ROLE_POOL).to_string()) };
+                let role = if r.chance(1, 8) {
+                    None
+                } else if r.chance(1, 4) {
+                    Some((if r.chance(1, 2) { "ADMIN" } else { "DBA" }).to_string())
+                } else {
+                    Some(r.pick(ROLE_POOL).to_string())
+                };
                 h.push(HOp::SetRole(role));
             }
             70..=72 => h.push(HOp::SetSecurity(r.chance(3, 4))),
@@ -301,6 +316,11 @@ fn gen_chain_history(r: &mut Rng) -> Vec<HOp> {
     let t = r.pick(TABLE_POOL).to_string();
     let p = ["SELECT", "INSERT", "UPDATE", "DELETE", "ALL PRIVILEGES"][r.below(5) as usize];
     h.push(HOp::Sql(format!("GRANT {} ON {} TO R1 WITH GRANT OPTION", p, t)));
+    let secure_chain = r.chance(1, 2);
+    if secure_chain {
+        // the chain is built under security: only delegations covered by a grant option succeed
+        h.push(HOp::SetSecurity(true));
+    }
     let n = 2 + r.below(5);
     for _ in 0..n {
         let from = format!("R{}", 1 + r.below(4));
@@ -309,7 +329,7 @@ fn gen_chain_history(r: &mut Rng) -> Vec<HOp> {
         let pp = if r.chance(1, 4) { "SELECT" } else { p };
         h.push(HOp::Sql(format!("GRANT {} ON {} TO {}{}", pp, t, to, if r.chance(3, 4) { " WITH GRANT OPTION" } else { "" })));
     }
-    h.push(HOp::SetRole(None));
+    h.push(HOp::SetRole(if secure_chain { Some("ADMIN".to_string()) } else { None }));
     h.push(HOp::SetSecurity(true));
     let victim = format!("R{}", 1 + r.below(4));
     let stmt = match r.below(6) {
@@ -970,6 +990,7 @@ fn main() {
                     }
                 }
                 if !gained.is_empty() {
+                    // (repaired upstream by "grant-requires-authority": not a listed class any more)
                     case_findings.push(("grant-without-authority".into(), format!("session role {} (not ADMIN/DBA, security enabled, no grant option) executed `{}` successfully: {}", role, match o { HOp::Sql(s) => s.as_str(), _ => "" }, gained.join("; "))));
                 }
             }
